@@ -786,11 +786,17 @@ void __redu_lcd_progress(
   if (cols <= 0) {
     return;
   }
-  if (width <= 0 || width > cols) {
+  if (width > cols) {
     width = cols;
   }
+  if (width <= 0) {
+    // an omitted width arrives as ``cols``; an explicit 0 or negative one is the narrowest bar
+    width = 1;
+  }
   if (max_value <= 0) {
+    // nothing can be filled of an empty range
     max_value = 1;
+    value = 0;
   }
   if (value < 0) {
     value = 0;
